@@ -149,6 +149,42 @@ ChooseSeq(k) ==
           /\ last' = [a |-> "ch", k |-> k, r |-> r]
     /\ UNCHANGED <<cfg, gen, lst, pc, key, sg, res>>
 
+(* ---- many selections at once ---- *)
+(* P is a set of [k |-> key, id |-> server or NIL, c |-> how often]: the tally of a burst of           *)
+(* selections, made by any number of concurrent callers between two quiescent instants with no      *)
+(* replacement in between.  Batch(P) holds iff some order of that many Pick steps produces the       *)
+(* tally: every linearisation of a round robin burst keeps RRFair, and every tally that is a         *)
+(* member-only, RRFair-preserving (resp. sticky, positive-weight) extension of the current state     *)
+(* is reached by picking level by level.                                                             *)
+TallyOf(P, i) == LET RECURSIVE S(_)
+                     S(Q) == IF Q = {} THEN 0 ELSE LET x == CHOOSE x \in Q : TRUE IN x.c + S(Q \ {x})
+                 IN S({x \in P : x.id = i})
+
+BatchOK(P) ==
+    LET l == lst[gen] IN
+    /\ \A x \in P : x.c > 0
+    /\ IF l = {} THEN \A x \in P : x.id = NIL
+       ELSE /\ \A x \in P : x.id \in Ids(l)
+            /\ cfg.policy = "roundRobin" =>
+                   \A i, j \in Ids(l) : (cnt[gen][i] + TallyOf(P, i)) - (cnt[gen][j] + TallyOf(P, j)) <= 1
+            /\ cfg.policy \in {"ipHash", "headerHash"} =>
+                   /\ \A x, y \in P : x.k = y.k => x.id = y.id
+                   /\ \A x \in P : sticky[gen][x.k] \in {NONE, x.id}
+            /\ cfg.policy = "weightedRandom" =>
+                   ((\E s \in l : s.w > 0) => \A x \in P : WeightIn(l, x.id) > 0)
+
+Batch(P) ==
+    /\ \A p \in Procs : pc[p] = "idle"
+    /\ BatchOK(P)
+    /\ cnt' = [cnt EXCEPT ![gen] = [i \in DOMAIN cnt[gen] |-> cnt[gen][i] + TallyOf(P, i)]]
+    /\ sticky' = IF cfg.policy \in {"ipHash", "headerHash"}
+                 THEN [sticky EXCEPT ![gen] = [k \in Keys |-> IF \E x \in P : x.k = k /\ x.id # NIL
+                                                             THEN (CHOOSE x \in P : x.k = k).id ELSE sticky[gen][k]]]
+                 ELSE sticky
+    /\ nsel' = nsel + 1
+    /\ last' = [a |-> "batch"]
+    /\ UNCHANGED <<cfg, gen, lst, pc, key, sg, res>>
+
 Next ==
     \/ \E I \in InstSets : Replace(I)
     \/ \E p \in Procs : (\E k \in Keys : Inv(p, k)) \/ Snap(p) \/ Pick(p) \/ Ret(p)
